@@ -221,3 +221,7 @@ func signOf(g Guard, isX func(ssa.Value) bool) int {
 	}
 	return 0
 }
+
+func isErrorType(t types.Type) bool {
+	return types.Identical(t, types.Universe.Lookup("error").Type())
+}
